@@ -24,3 +24,40 @@ package lb
 //@   modifies rndprev, rndlast
 //@   ensures @empty-list len(hosts) == 0 ==> result == nil
 //@   ensures @never-the-strictly-busier-of-the-two-samples len(hosts) > 0 ==> result == ite(atomu64[hosts[rndprev % len(hosts)].Stats.connActive] < atomu64[hosts[rndlast % len(hosts)].Stats.connActive], hosts[rndprev % len(hosts)], hosts[rndlast % len(hosts)])
+
+// ---- C06: the configured policy selects the implementation of that policy ------------------------------------
+
+//@ func New
+//@   prop C06
+//@   modifies nothing
+//@   ensures @the-policy-picks-its-balancer result != nil && (p == 1 ==> typeis(result, "*leastConnBalancer")) && (p == 2 ==> typeis(result, "*randomBalancer")) && (p != 1 && p != 2 ==> typeis(result, "*roundRobinBalancer") && ifaceptr(result, "*roundRobinBalancer") != nil && ifaceptr(result, "*roundRobinBalancer").index != nil)
+
+//@ func newRoundRobinBalancer
+//@   prop C06
+//@   modifies nothing
+//@   ensures @counter-present result != nil && fresh(result) && result.index != nil
+
+//@ func (*roundRobinBalancer).Name
+//@   prop C06
+//@   modifies nothing
+//@   ensures result == "RoundRobin"
+
+//@ func (*randomBalancer).Name
+//@   prop C06
+//@   modifies nothing
+//@   ensures result == "Random"
+
+//@ func (*leastConnBalancer).Name
+//@   prop C06
+//@   modifies nothing
+//@   ensures result == "LeastConnection"
+
+//@ func newRandomBalancer
+//@   prop C06
+//@   modifies nothing
+//@   ensures result != nil && fresh(result)
+
+//@ func newLeastConnBalancer
+//@   prop C06
+//@   modifies nothing
+//@   ensures result != nil && fresh(result)
